@@ -417,6 +417,23 @@ def install_exact_strings(I):
             return [(st, ('it', 'seq', vals, 0, False))]
         return m_split(I_, st, args, dty, site)
 
+    m_split_once = I.find_model('core::str::<impl str>::split_once')
+
+    def split_once(I_, st, args, dty, site):
+        xt = xt_of(I_, st, args[0])
+        pat = pattern_of(I_, st, args[1]) if xt is not None and len(args) > 1 else None
+        if xt is not None and not xt.rest and pat is not None and pat[0] == 'char' and not pat[1].isdigit():
+            idxs = [i for i, c in enumerate(xt.chars) if c == ('c', pat[1])]
+            if not idxs:
+                return [(st, none())]
+            k = idxs[-1] if site['callee'].endswith('rsplit_once') else idxs[0]
+            a = ('str', new_string(I_, st, XText(xt.chars[:k], xt.nums, False)))
+            b = ('str', new_string(I_, st, XText(xt.chars[k + 1:], xt.nums, False)))
+            return [(st, some(('t', (a, b))))]
+        return m_split_once(I_, st, args, dty, site)
+    for n_ in ('core::str::<impl str>::split_once', 'core::str::<impl str>::rsplit_once'):
+        I.models[n_] = split_once
+
     from . import models as M
     base_str_eq = M.str_eq
 
